@@ -693,7 +693,7 @@ def _fields(line):
 #   [C11-keyed-first-reshape]  the cycle in which the snapshot is created (first change of the root's identity) while
 #                              the OLD root itself changed in that cycle: the whole new value is reported as added,
 #                              removals of that cycle are not reported at all
-KEYED_TAG_ALARMS = {"[C11-keyed-first-reshape]": False}
+KEYED_TAG_ALARMS = {"[C11-keyed-first-reshape]": True}
 
 
 def _bitceil(n):
